@@ -19,7 +19,8 @@ class CFError(Exception):
     pass
 
 class Canon:
-    def __init__(self, nodes, roots, hyps, extra_rules=None, sign_override=None, atom_order=None):
+    def __init__(self, nodes, roots, hyps, extra_rules=None, sign_override=None, atom_order=None, inverse_polar=True):
+        self.inverse_polar = inverse_polar
         self.nodes = nodes
         self.cone = sorted(dagm.cone(nodes, roots))
         self.hyps = hyps
@@ -284,7 +285,7 @@ class Canon:
             if self.iszero(y) and x[0].is_ground and x[1].is_ground and x[0].LC > 0:
                 return self.const(Fraction(0))
             # inverse polar rule: atan2(k sin A, k cos A) = A  for k > 0 and -pi < A <= pi (obligations recorded)
-            for kb, sc in self.trigbase.items():
+            for kb, sc in (self.trigbase.items() if self.inverse_polar else ()):
                 if not sc or sc[0] is None or sc[1] is None: continue
                 sb, cb = sc
                 if self.iszero(sb) or self.iszero(cb): continue
